@@ -105,9 +105,39 @@ func mkI(op Op, a, b *Term) *Term {
 		if okb && bb.Sign() == 0 {
 			return a
 		}
+		if oka && !okb {
+			a, b, ba, bb, oka, okb = b, a, bb, ba, okb, oka
+		}
+		// (x + c1) + c2  ->  x + (c1+c2) ; (x - c1) + c2 -> x + (c2-c1)
+		if okb && (a.op == OpIAdd || a.op == OpISub) {
+			if c1, ok := intConstBig(a.args[1]); ok {
+				if a.op == OpIAdd {
+					return mkI(OpIAdd, a.args[0], mkIntBig(new(big.Int).Add(c1, bb)))
+				}
+				return mkI(OpIAdd, a.args[0], mkIntBig(new(big.Int).Sub(bb, c1)))
+			}
+		}
+		if okb && bb.Sign() < 0 {
+			return mkI(OpISub, a, mkIntBig(new(big.Int).Neg(bb)))
+		}
 	case OpISub:
 		if okb && bb.Sign() == 0 {
 			return a
+		}
+		if a == b {
+			return mkConst(IntSort, 0)
+		}
+		// (x + c1) - c2 -> x + (c1-c2) ; (x - c1) - c2 -> x - (c1+c2)
+		if okb && (a.op == OpIAdd || a.op == OpISub) {
+			if c1, ok := intConstBig(a.args[1]); ok {
+				if a.op == OpIAdd {
+					return mkI(OpIAdd, a.args[0], mkIntBig(new(big.Int).Sub(c1, bb)))
+				}
+				return mkI(OpISub, a.args[0], mkIntBig(new(big.Int).Add(c1, bb)))
+			}
+		}
+		if okb && bb.Sign() < 0 {
+			return mkI(OpIAdd, a, mkIntBig(new(big.Int).Neg(bb)))
 		}
 	case OpIMul:
 		if oka && ba.IsInt64() && ba.Int64() == 1 {
@@ -297,6 +327,32 @@ func liaBinopImpl(op token.Token, kx, ky types.BasicKind, x, y value) value {
 				return mkval2(mkI(OpIMod, a, mkIntBig(m)), kx)
 			}
 		}
+	case token.OR, token.XOR:
+		// bitwise op with a non-negative constant on a non-negative operand:
+		// decompose over the set bits of the constant.
+		ca, cb := a, b
+		if _, ok := intConstBig(ca); ok {
+			ca, cb = cb, ca
+		}
+		if bb, ok := intConstBig(cb); ok && bb.Sign() >= 0 && bb.BitLen() <= 16 {
+			if iv := intervalOf(ca); iv.lo != nil && iv.lo.Sign() >= 0 {
+				res := ca
+				for k := 0; k < bb.BitLen(); k++ {
+					if bb.Bit(k) == 0 {
+						continue
+					}
+					p2 := mkIntBig(pow2(k))
+					bit := mkI(OpIMod, mkI(OpIDiv, ca, p2), mkConst(IntSort, 2))
+					isZero := mkEq(bit, mkConst(IntSort, 0))
+					if op == token.OR {
+						res = mkI(OpIAdd, res, mkIte(isZero, p2, mkConst(IntSort, 0)))
+					} else {
+						res = mkI(OpIAdd, res, mkIte(isZero, p2, mkI(OpISub, mkConst(IntSort, 0), p2)))
+					}
+				}
+				return mkval2(wrapI(res, kx), kx)
+			}
+		}
 	case token.SHL:
 		if bb, ok := intConstBig(b); ok && bb.IsInt64() && bb.Int64() < 64 {
 			return mkval2(wrapI(mkI(OpIMul, a, mkIntBig(pow2(int(bb.Int64())))), kx), kx)
@@ -372,6 +428,62 @@ func liaFormatInt(s sym) value {
 	return mkstr(out)
 }
 
-func evalInt(t *Term, m Model, memo map[int]uint64) uint64 {
-	panic(unsupported("model evaluation of Int terms"))
+
+// refineRange narrows the per-path range of a variable from a path-condition
+// conjunct of the form  var < c, var <= c, c < var, c <= var  (or a negation).
+func refineRange(t *Term) {
+	neg := false
+	if t.op == OpNot {
+		neg = true
+		t = t.args[0]
+	}
+	if t.op == OpAnd && !neg {
+		for _, a := range t.args {
+			refineRange(a)
+		}
+		return
+	}
+	if t.op != OpILt && t.op != OpILe {
+		return
+	}
+	a, b := t.args[0], t.args[1]
+	strict := t.op == OpILt
+	if neg { // not(a < b) == b <= a ; not(a <= b) == b < a
+		a, b = b, a
+		strict = !strict
+	}
+	one := big.NewInt(1)
+	if a.op == OpVar {
+		if c, ok := intConstBig(b); ok { // a < c  or a <= c
+			hi := new(big.Int).Set(c)
+			if strict {
+				hi.Sub(hi, one)
+			}
+			r := varRange[a.name]
+			if r.hi == nil || hi.Cmp(r.hi) < 0 {
+				r.hi = hi
+				varRange[a.name] = r
+				ivalMemo = map[int]ival{}
+			}
+		}
+	}
+	if b.op == OpVar {
+		if c, ok := intConstBig(a); ok { // c < b or c <= b
+			lo := new(big.Int).Set(c)
+			if strict {
+				lo.Add(lo, one)
+			}
+			r := varRange[b.name]
+			if r.lo == nil || lo.Cmp(r.lo) > 0 {
+				r.lo = lo
+				varRange[b.name] = r
+				ivalMemo = map[int]ival{}
+			}
+		}
+	}
+}
+
+func resetLIAPath() {
+	varRange = map[string]ival{}
+	ivalMemo = map[int]ival{}
 }
